@@ -85,6 +85,8 @@ def gen_request(rng):
     rule, conv, arg = RULE[kind]
     one = f"{rule}/<base64url:{conv}>"
     i = rng.choice(IDS[kind])
+    if x >= 0.22 and x < 0.45 and rng.random() < 0.2:      # an identifier that belongs to another collection
+        i = rng.choice([j for kd in IDS for j in IDS[kd][:2] if kd != kind])
     seg = b64(i) if rng.random() < 0.8 else b64(i).rstrip("=")
     fmt = rng.choice(FMT)
     smseg = b64(rng.choice(IDS["sm"]))
@@ -101,8 +103,15 @@ def gen_request(rng):
             q.append(("level", "core"))
         if rng.random() < 0.15 and kind != "cd":
             q.append(("idShort", rng.choice(["Sm1", "Sh1", "nope"])))
+        ql = {}
+        if kind == "shell" and rng.random() < 0.35:        # the shells of the pool carry no specificAssetIds: nothing matches
+            q.append(("assetIds", CS._sad({"name": rng.choice(["n", "serial"]), "value": "v"})))
+            ql = {"assetIds": ["ok"]}
+            if rng.random() < 0.3:
+                q.append(("assetIds", CS._sad({"name": "m", "value": "w"})))
+                ql = {"assetIds": ["ok", "ok"]}
         suffix = rng.choice(["", "", "/$reference"] + (["/$metadata"] if kind == "sm" else [])) if kind != "cd" else ""
-        return rq(rule + suffix, "GET", query=q, cls="list-" + kind)
+        return rq(rule + suffix, "GET", query=q, qlabels=ql, cls="list-" + kind)
     if x < 0.32:
         suffix = rng.choice(["", "", "/$reference"] + (["/$metadata"] if kind == "sm" else [])) if kind != "cd" else ""
         q = [("level", "core")] if rng.random() < 0.2 else []
@@ -208,11 +217,18 @@ def gen_attachment_history(rng, n):
         rq = {"rule": att, "accept": rng.choice(ACC), "query": [], "body": ("none",), "sm": b64("urn:att"), "path": p}
         if x < 0.4:
             rq.update(method="PUT", cls="put-attachment",
-                      body=("upload", rng.choice(["/aasx/a.txt", "/aasx/a.txt", "/aasx/b.bin", "/c"]), (1 if p == "f6" else 0, rng.randrange(0, 4))))
-        elif x < 0.7:
+                      body=("upload", rng.choice(["/aasx/a.txt", "/aasx/a.txt", "/aasx/a.txt", "/aasx/b.bin", "/c"]),
+                            (1 if p == "f6" else 0, rng.choice([1, 1, 1, 2, 0, 3]))))
+        elif x < 0.66:
             rq.update(method="GET", cls="get-attachment")
-        else:
+        elif x < 0.80:
             rq.update(method="DELETE", cls="delete-attachment")
+        elif x < 0.93:     # the element itself is deleted ...
+            rq.update(rule=att[:-len("/attachment")], method="DELETE", cls="delete-file-element")
+        else:              # ... and created again (without attachment)
+            rq.pop("path")
+            rq.update(rule="/submodels/<base64url:submodel_id>/submodel-elements", method="POST", cls="post-file-element",
+                      body=("val", "json", dict(CS.F(p, None, ctype=1 if p == "f6" else 0) if p[0] == "f" else CS.B(p, None), k="elem")))
         out.append(rq)
     return out
 
@@ -245,6 +261,80 @@ def gen_list_history(rng, n):
                         "cls": "put-via-shell-list", "aas": b64("urn:lists:aas"), "sm": b64(smid), "body": ("val", fmt, sm(size))})
         out.append({"rule": el, "method": "GET", "accept": rng.choice(ACC), "query": [], "cls": "get-list", "sm": b64(smid),
                     "path": "l1", "body": ("none",)})
+    return out
+
+
+def gen_replace_history(rng, n):
+    """successive replacements of one submodel (directly, through a shell) and of a collection in it, over a handful of
+    idShorts whose class changes freely from document to document (Property, Range, File, Blob, empty collection),
+    children added and dropped; each followed by reads"""
+    J = (None, "json")
+    smid = "urn:replace"
+    def leaf(name):
+        return mk_elem(rng, name)                 # v* names: the class is drawn anew each time
+    def doc():
+        kids = [leaf(nm) for nm in rng.sample(["v1", "v2", "v3"], rng.randrange(1, 4))]
+        if rng.random() < 0.8:
+            kids.append(CS.C("c1", [leaf(nm) for nm in rng.sample(["v4", "v5"], rng.randrange(0, 3))], rng.randrange(1, 6)))
+        rng.shuffle(kids)
+        return {"k": "sm", "id": smid, "ids": "Rep", "tok": rng.randrange(1, 6),
+                "quals": [(t, rng.randrange(1, 9)) for t in rng.sample(CS.QTYPES, rng.randrange(0, 3))], "elems": kids}
+    one = "/submodels/<base64url:submodel_id>"
+    el = one + "/submodel-elements/<id_short_path:id_shorts>"
+    out = [{"rule": "/submodels", "method": "POST", "accept": J, "query": [], "cls": "post-sm", "body": ("val", rng.choice(FMT), doc())},
+           {"rule": "/shells", "method": "POST", "accept": J, "query": [], "cls": "post-shell",
+            "body": ("val", "json", {"k": "shell", "id": "urn:replace:aas", "ids": "A", "tok": 1, "refs": [smid]})}]
+    while len(out) < n:
+        how = rng.random()
+        fmt = rng.choice(FMT)
+        if how < 0.5:
+            out.append({"rule": one, "method": "PUT", "accept": J, "query": [], "cls": "put-sm-classes", "sm": b64(smid), "body": ("val", fmt, doc())})
+        elif how < 0.8:
+            c = dict(CS.C("c1", [leaf(nm) for nm in rng.sample(["v4", "v5"], rng.randrange(0, 3))], rng.randrange(1, 6)), k="elem")
+            out.append({"rule": el, "method": "PUT", "accept": J, "query": [], "cls": "put-collection-classes", "sm": b64(smid), "path": "c1",
+                        "body": ("val", fmt, c)})
+        else:
+            out.append({"rule": "/shells/<base64url:aas_id>/submodels/<base64url:submodel_id>", "method": "PUT", "accept": J, "query": [],
+                        "cls": "put-via-shell-classes", "aas": b64("urn:replace:aas"), "sm": b64(smid), "body": ("val", fmt, doc())})
+        out.append({"rule": one, "method": "GET", "accept": rng.choice(ACC), "query": [], "cls": "get-sm", "sm": b64(smid), "body": ("none",)})
+        out.append({"rule": el, "method": "GET", "accept": J, "query": [], "cls": "get-elem", "sm": b64(smid),
+                    "path": rng.choice(["v1", "v2", "c1", "c1.v4", "c1.v5"]), "body": ("none",)})
+    return out
+
+
+def gen_refs_history(rng, n):
+    """the submodel references of a shell: POST / list / DELETE by submodel id / redirect / PUT and DELETE of the
+    submodel through the shell, over references with and without a referredSemanticId, to stored, missing and
+    wrong-class targets"""
+    J = (None, "json")
+    aas = "urn:refs:aas"
+    pool = [IDS["sm"][0], IDS["sm"][1], IDS["sm"][2], "urn:dangling", IDS["cd"][0]]      # [1] and urn:dangling carry a referredSemanticId
+    a1 = "/shells/<base64url:aas_id>"
+    out = [{"rule": "/shells", "method": "POST", "accept": J, "query": [], "cls": "post-shell",
+            "body": ("val", rng.choice(FMT), {"k": "shell", "id": aas, "ids": "R", "tok": 1, "refs": rng.sample(pool, rng.randrange(0, 3))})}]
+    for i in pool[:3]:
+        if rng.random() < 0.7:
+            out.append({"rule": "/submodels", "method": "POST", "accept": J, "query": [], "cls": "post-sm", "body": ("val", "json", mk_top(rng, "sm", i))})
+    out.append({"rule": "/concept-descriptions", "method": "POST", "accept": J, "query": [], "cls": "post-cd",
+                "body": ("val", "json", mk_top(rng, "cd", IDS["cd"][0]))})
+    while len(out) < n:
+        i = rng.choice(pool)
+        x = rng.random()
+        rq = {"accept": rng.choice(ACC), "query": [], "body": ("none",), "aas": b64(aas)}
+        if x < 0.3:
+            rq.update(rule=a1 + "/submodel-refs", method="POST", cls="post-ref", body=("val", rng.choice(FMT), {"k": "ref", "id": i}))
+        elif x < 0.4:
+            rq.update(rule=a1 + "/submodel-refs", method="GET", cls="list-refs", sorted=True)
+        elif x < 0.65:
+            rq.update(rule=a1 + "/submodel-refs/<base64url:submodel_id>", method="DELETE", cls="delete-ref", sm=b64(i))
+        elif x < 0.8:
+            rq.update(rule=a1 + "/submodels/<base64url:submodel_id>", method="GET", cls="via-shell", sm=b64(i))
+        elif x < 0.9:
+            rq.update(rule=a1 + "/submodels/<base64url:submodel_id>", method="PUT", cls="put-via-shell", sm=b64(i),
+                      body=("val", rng.choice(FMT), mk_top(rng, "sm", i)))
+        else:
+            rq.update(rule=a1 + "/submodels/<base64url:submodel_id>", method="DELETE", cls="via-shell", sm=b64(i))
+        out.append(rq)
     return out
 
 
@@ -422,6 +512,12 @@ def oracle_history(srv, backed, reqs, routes):
                 lab = H.decode_label(req["sm"])
                 if lab[1] in ref:
                     ref[lab[1]] = ("sm", None)
+        # ---- no shell of the pool carries a specificAssetId: a listing filtered by assetIds is empty
+        if ep in ("get_aas_all", "get_aas_all_reference") and st == 200 and any(k0 == "assetIds" for k0, _ in req["query"]) \
+                and req["accept"][1] == "json":
+            got = G.abs_json(json.loads(resp.data))
+            if isinstance(got, dict) and got.get("items"):
+                fails.append((k, "asset-ids", f"a listing filtered by assetIds that no stored shell carries returned {len(got['items'])} shells", ep))
         # ---- the core level of answers (JSON; for XML see the open finding core-level-ignored-for-xml)
         if st == 200 and req["method"] == "GET" and req["accept"][1] == "json" and resp.data and ep and \
                 (core or ep.endswith("_metadata")) and not ep.endswith("_reference") and "qualifiers" not in ep \
@@ -468,7 +564,20 @@ def oracle_history(srv, backed, reqs, routes):
                     if r3.status_code == 200 and b'"value"' in r3.data:
                         fails.append((k, "shared-attachment", "deleting one attachment made another element's attachment unavailable (404)", ep))
                         uploads.pop(u2, None)
-        if req["method"] in ("PUT", "DELETE", "POST") and st < 300 and ep not in ("put_submodel_submodel_element_attachment", "delete_submodel_submodel_element_attachment"):
+        if ep == "delete_submodel_submodel_elements_id_short_path" and st == 204:
+            # the element (and what lies below it) is gone; every other element keeps its attachment
+            for u2 in [u for u in uploads if u.startswith(url + ".") or u == url + "/attachment"]:
+                uploads.pop(u2)
+            for u2, want in list(uploads.items()):
+                r2 = srv.client.get(u2)
+                if r2.status_code != 200 or r2.data != want:
+                    fails.append((k, "attachment-lost", f"DELETE of a submodel element made the attachment of ANOTHER element unavailable "
+                                                        f"or different (GET -> {r2.status_code})", ep))
+                    uploads.pop(u2)
+        elif req["method"] in ("PUT", "DELETE", "POST") and st < 300 and ep not in (
+                "put_submodel_submodel_element_attachment", "delete_submodel_submodel_element_attachment",
+                "post_submodel_submodel_elements_id_short_path", "post_submodel_submodel_element_qualifiers",
+                "put_submodel_submodel_element_qualifiers", "delete_submodel_submodel_element_qualifiers"):
             uploads.clear()     # elements may have been replaced or removed: forget what was uploaded
             if ep in ("post_submodel", "put_submodel") and val is not None and val["k"] == "sm" and not core and not CS.renames(req):
                 # ... but a submodel document says what its Blobs hold
@@ -621,6 +730,14 @@ def run(chk):
         reqs = gen_history(rng, hl, backed)
         hist.append((backed, reqs))
         plans.append(([], [], backed, reqs, False))
+    for k in range(max(8, nh // 12)):
+        reqs = gen_replace_history(rng, 20)
+        hist.append((k % 2 == 1, reqs))
+        plans.append(([], [], k % 2 == 1, reqs, False))
+    for k in range(max(8, nh // 10)):
+        reqs = gen_refs_history(rng, 24)
+        hist.append((k % 2 == 1, reqs))
+        plans.append(([], [], k % 2 == 1, reqs, False))
     for k in range(max(6, nh // 12)):
         reqs = gen_list_history(rng, 16)
         hist.append((k % 2 == 1, reqs))
